@@ -469,6 +469,10 @@ impl<K: Key + 'static, V: Value + 'static> BtreeMut<K, V> {
             &self.allocated_pages,
         );
         let result = operation.insert(key, value);
+        #[cfg(redb_verif)]
+        if !self.local_freed.is_empty() {
+            crate::verif::pause("F.merge");
+        }
         merge_freed_pages(&self.freed_pages, &mut self.local_freed);
         let (old_value, _) = result?;
         Ok(old_value)
@@ -526,6 +530,10 @@ impl<K: Key + 'static, V: Value + 'static> BtreeMut<K, V> {
             &self.allocated_pages,
         );
         let result = operation.delete(key);
+        #[cfg(redb_verif)]
+        if !self.local_freed.is_empty() {
+            crate::verif::pause("F.merge");
+        }
         merge_freed_pages(&self.freed_pages, &mut self.local_freed);
         result
     }
@@ -541,6 +549,10 @@ impl<K: Key + 'static, V: Value + 'static> BtreeMut<K, V> {
         let result = cursor
             .seek_to(Position::Start)
             .and_then(|()| cursor.remove_next());
+        #[cfg(redb_verif)]
+        if !self.local_freed.is_empty() {
+            crate::verif::pause("F.merge");
+        }
         merge_freed_pages(&self.freed_pages, &mut self.local_freed);
         result
     }
@@ -556,6 +568,10 @@ impl<K: Key + 'static, V: Value + 'static> BtreeMut<K, V> {
         let result = cursor
             .seek_to(Position::End)
             .and_then(|()| cursor.remove_prev());
+        #[cfg(redb_verif)]
+        if !self.local_freed.is_empty() {
+            crate::verif::pause("F.merge");
+        }
         merge_freed_pages(&self.freed_pages, &mut self.local_freed);
         result
     }
@@ -599,7 +615,11 @@ impl<K: Key + 'static, V: Value + 'static> BtreeMut<K, V> {
             let page_mut = if self.page_allocator.uncommitted(root.root) {
                 self.page_allocator.get_page_mut(root.root)?
             } else {
+                #[cfg(redb_verif)]
+                crate::verif::pause("F.get_mut");
                 let mut freed_pages = self.freed_pages.lock().unwrap();
+                #[cfg(redb_verif)]
+                crate::verif::pause("F.get_mut.locked");
                 let required: usize = root
                     .root
                     .page_size_bytes(self.page_allocator.get_page_size().try_into().unwrap())
@@ -659,7 +679,11 @@ impl<K: Key + 'static, V: Value + 'static> BtreeMut<K, V> {
                 let child_page_mut = if self.page_allocator.uncommitted(child_page) {
                     self.page_allocator.get_page_mut(child_page)?
                 } else {
+                    #[cfg(redb_verif)]
+                    crate::verif::pause("F.get_mut");
                     let mut freed_pages = self.freed_pages.lock().unwrap();
+                    #[cfg(redb_verif)]
+                    crate::verif::pause("F.get_mut.locked");
                     let required: usize = child_page
                         .page_size_bytes(self.page_allocator.get_page_size().try_into().unwrap())
                         .try_into()
@@ -800,6 +824,10 @@ impl<K: Key + 'static, V: Value + 'static> BtreeMut<K, V> {
             poisoned,
         );
 
+        #[cfg(redb_verif)]
+        if !freed.is_empty() {
+            crate::verif::pause("F.merge");
+        }
         merge_freed_pages(&self.freed_pages, &mut freed);
 
         result
@@ -896,6 +924,10 @@ impl<K: Key + 'static, V: MutInPlaceValue + 'static> BtreeMut<K, V> {
             &self.allocated_pages,
         );
         let result = operation.insert(key, &V::from_bytes(&value));
+        #[cfg(redb_verif)]
+        if !self.local_freed.is_empty() {
+            crate::verif::pause("F.merge");
+        }
         merge_freed_pages(&self.freed_pages, &mut self.local_freed);
         let (_, guard) = result?;
         Ok(guard)
